@@ -13,6 +13,7 @@ func init() {
 	vRegister("VH_C16_Policy", VH_C16_Policy)
 	vRegister("VH_C16_MintImport", VH_C16_MintImport)
 	vRegister("VH_C16_Expiry", VH_C16_Expiry)
+	vRegister("VH_C16_LifetimeAgreement", VH_C16_LifetimeAgreement)
 }
 
 // VH_C16_Parse: for any session id (may itself contain '#', brackets and sinful
@@ -283,4 +284,53 @@ func VH_C16_Expiry() {
 	} else {
 		vAssert(!e2.IsZero(), "fallback-lifetime-applies-without-embedded-expiry")
 	}
+}
+
+// VH_C16_LifetimeAgreement: a claim minted *with a lifetime* (the absolute expiry,
+// now + lifetime, travels in the claim text) and imported: both ends hold the same
+// expiry, and they still do after each end has taken part in a resumption (which
+// renews the session's lease): a claim session's expiry is the one embedded in the
+// identifier, on both ends, for as long as it lives.
+//
+//verif:unwind 16
+func VH_C16_LifetimeAgreement() {
+	// the minter renders now + lifetime into the claim text and the importer parses
+	// it back: with a symbolic clock that is a symbolic decimal inside a text that
+	// is split and scanned (no result in 15 minutes); the clock is frozen instead.
+	// The comparison between the two ends is what is decided, for this instant.
+	vClockFrozen(1790000000)
+	secret := "5ec2e7c0ffee5ec2e7c0ffee5ec2e7c0ffee5ec2e7c0ffee5ec2e7c0ffee5ec2"
+	VerifHook_randomHexKey = func(n int) (string, error) { return secret, nil }
+	VerifHook_deriveSessionKey = func(sk string, n int) ([]byte, error) { return []byte("0123456789abcdef0123456789abcdef"), nil }
+	defer func() {
+		VerifHook_randomHexKey = nil
+		VerifHook_deriveSessionKey = nil
+	}()
+	peer := "<192.0.2.9:9618>"
+	life := []time.Duration{time.Hour, 10 * time.Minute}[vChoice("lifetime", 2)]
+	opts := MintClaimOptions{Sinful: "<10.0.0.1:9618>", Birthdate: 1700000000, SequenceNum: 3, PeerAddr: peer, ValidCommands: []int{60007}, Lifetime: life}
+	mc, ic := NewSessionCache(), NewSessionCache()
+	minted, err := MintClaimSession(mc, opts)
+	vAssert(err == nil, "mint-succeeds")
+	if err != nil {
+		return
+	}
+	sid, ierr := ImportClaimSession(ic, minted.ClaimID(), ClaimSessionOptions{PeerAddr: peer})
+	vAssert(ierr == nil && sid == minted.SessionID(), "import-accepts-minted-claim")
+	if ierr != nil {
+		return
+	}
+	me, mok := mc.Lookup(sid)
+	ie, iok := ic.Lookup(sid)
+	vAssert(mok && iok, "both-sides-hold-the-session")
+	if !mok || !iok {
+		return
+	}
+	vAssert(!me.Expiration().IsZero() && me.Expiration().Equal(ie.Expiration()), "same-expiry")
+	// a little later each end takes part in a resumption: the lease is renewed
+	vClockFrozen(1790000100)
+	me.RenewLease()
+	ie.RenewLease()
+	vAssert(me.Expiration().Equal(ie.Expiration()), "same-expiry-after-both-ends-resumed-the-session")
+	vCover("lifetime-agreed")
 }
